@@ -98,6 +98,26 @@ pub fn gen(ctx: &Ctx, rng: &mut Rng, out: &mut Vec<String>) {
         out.push(format!("c04.marg\t{sh}\t{db}\t{}", nats(&seq)));
         out.push(format!("c04.marg\t{sh}\t{db}\t-"));
     }
+    // the command line: `sfs view -m AXES` and `-M KEEP` (the keep list is a set: any order, an axis named twice adjacent or not,
+    // an axis the spectrum does not have) on shapes of 2-5 axes; compared with the model's `viewRun`
+    for (i, s) in shp.iter().filter(|s| s.len() >= 2 && s.iter().product::<usize>() <= 400).enumerate() {
+        if !ctx.tier_thorough && i % 3 != 0 && *s != full5 { continue; }
+        let d = s.len(); let n: usize = s.iter().product();
+        let data = shapes::prime_data(rng, n);
+        let l = |v: &[usize]| format!("S{}", nats(v));
+        for rep in 0..(if *s == full5 { 12 } else { 3 }) {
+            let k = rng.range(1, (d - 1) as u64) as usize;
+            let mut axes: Vec<usize> = (0..d).collect(); rng.shuffle(&mut axes); axes.truncate(k);
+            out.push(format!("c13.view\t{}\t{}\t{}\tN\tN\tN\t0\t0", nats(s), bits(&data), l(&axes)));
+            let mut keep: Vec<usize> = (0..d).filter(|a| !axes.contains(a)).collect(); rng.shuffle(&mut keep);
+            match rep % 4 { 0 => {} 1 => { let k0 = keep[0]; keep.push(k0); } 2 => { let kl = *keep.last().unwrap(); keep.insert(0, kl); keep.push(kl); } _ => { keep.push(d + rep); let k0 = keep[0]; keep.insert(1, k0); } }
+            out.push(format!("c13.view\t{}\t{}\tN\t{}\tN\tN\t0\t0", nats(s), bits(&data), l(&keep)));
+        }
+        // duplicates in the remove list (adjacent, non-adjacent) are refused
+        let a0 = rng.below(d as u64) as usize; let a1 = (a0 + 1) % d;
+        out.push(format!("c13.view\t{}\t{}\t{}\tN\tN\tN\t0\t0", nats(s), bits(&data), l(&[a0, a1, a0])));
+        out.push(format!("c13.view\t{}\t{}\t{}\tN\tN\tN\t0\t0", nats(s), bits(&data), l(&[a0, a0])));
+    }
     // 6-8 axes: a dozen random axis sets each, in two orders
     for s in &wide {
         let d = s.len(); let n: usize = s.iter().product();
